@@ -880,6 +880,15 @@ func (env *SpecEnv) evalCall(n *Node) Val {
 	case "pow2":
 		k := env.eval(args[0])
 		return mathInt(app(ex.pow2UF(), k.L[0]))
+	case "strOf":
+		// strOf(b): the string made of the bytes of b (string(b) in Go)
+		b := env.eval(args[0])
+		if b.T == nil || len(b.L) != 4 {
+			sfail("strOf needs a byte slice")
+		}
+		bt := types.Typ[types.Uint8]
+		arr := mkSelect(ex.comp(env.cur, compE(bt, 0), sArr(sInt, sArr(sInt, sInt))), b.L[0])
+		return Val{T: types.Typ[types.String], L: []string{app("sfrom", arr, b.L[1], b.L[2])}}
 	case "visited":
 		// visited(k): key k has already been produced by the map range loop this clause belongs to
 		if env.lp == nil || env.fr == nil {
